@@ -1,6 +1,7 @@
 package icc
 
 import (
+	"bytes"
 	"fmt"
 	"github.com/mandykoh/prism/meta/binary"
 	"io"
@@ -241,14 +242,22 @@ func (pr *ProfileReader) readTagTable(tagTable *TagTable) error {
 	}
 
 	tagDataOffset := tagTableOffset + 4 + (tagCount * 12)
-	tagData := make([]byte, endOfTagData-tagDataOffset)
-	bytesRead, err := io.ReadFull(pr.reader, tagData)
-	if err == io.ErrUnexpectedEOF {
-		return fmt.Errorf("expected %d bytes of tag data but only got %d", len(tagData), bytesRead)
+	tagDataLength := uint32(0)
+	if endOfTagData > tagDataOffset {
+		tagDataLength = endOfTagData - tagDataOffset
+	}
+
+	// Read into a growing buffer so that memory use follows the data actually
+	// present rather than the (untrusted) declared tag offsets and sizes.
+	tagDataBuffer := bytes.Buffer{}
+	bytesRead, err := io.CopyN(&tagDataBuffer, pr.reader, int64(tagDataLength))
+	if err == io.EOF && bytesRead > 0 {
+		return fmt.Errorf("expected %d bytes of tag data but only got %d", tagDataLength, bytesRead)
 	}
 	if err != nil {
 		return err
 	}
+	tagData := tagDataBuffer.Bytes()
 
 	for sig, entry := range tagIndex {
 		startOffset := entry.offset - tagDataOffset
